@@ -279,10 +279,27 @@ def live_case(rng):
             pend = []      # raw reads desynchronise the typed stream: open a fresh reader
             c.append("bw_take " + rng.pick(["ctor", "assign"]))
             c.append("rd_open bw")
-        else:
+        elif r < 0.95:
             c.append("bw_take " + rng.pick(["ctor", "assign"]))
             c.append("dump")
             c.append("rd_end")
+            c.append("rd_open bw")
+            pend = []
+        else:
+            # rewind the writer, write a (usually shorter) message, read it back through a copy of / the moved array
+            c.append("bw_rewind")
+            c.append("dump")
+            pend = []
+            for _ in range(rng.randint(1, 2)):
+                ty = rng.pick(PODS)
+                c.append("w %s %s" % (ty, gen_value(rng, ty, False)))
+                pend.append(ty)
+            c.append("rd_open " + rng.pick(["copy", "copy", "moved", "bw"]))
+            for t in pend:
+                c.append("r " + t)
+            c.append("rd_end")
+            c.append("r u8")
+            c.append("bw_rewind")         # start the next message on an empty array again (reads stay type-consistent)
             c.append("rd_open bw")
             pend = []
     for t in pend:
